@@ -1220,15 +1220,19 @@ def shard(member, acc):
 
 
 def run(tier):
-    mem = [("corpus",) + m + (tier,) for m in C.members_bounded(tier, 4)]
+    # Both tiers take their seeds from the quick generators (the seed sets of the thorough tier - one line longer on
+    # every axis, every 4th member of the full family - were measured at more than an hour on 16 cores and are not
+    # registered); the thorough tier goes deeper per seed: three cuts, all placement pairs, all shapes, both faults.
+    gen_tier = "quick"
+    mem = [("corpus",) + m + (tier,) for m in C.members_bounded(gen_tier, 4)]
     ds = define_seeds()
     step = 40
     for i in range(0, len(ds), step):
         mem.append(("fixed", "define-%d" % i, DEFINE_SCHEMA, ds[i:i + step], tier))
-    rs = repeat_seeds(tier)
+    rs = repeat_seeds(gen_tier)
     for i in range(0, len(rs), step):
         mem.append(("repeat", "repeat-%d" % i, REPEAT_SCHEMA, rs[i:i + step], tier))
-    ss = spell_seeds(tier)
+    ss = spell_seeds(gen_tier)
     sstep = 3 if tier == "quick" else 1
     for i in range(0, len(ss), sstep):
         mem.append(("spell", "spell-%d" % i, REPEAT_SCHEMA, ss[i:i + sstep], tier))
@@ -1236,7 +1240,7 @@ def run(tier):
     # Both tiers explore the wave-5 axes with the same bounds: the deeper variant (seeds one line longer on each of the
     # three axes) was measured at about 80 minutes on 16 cores and is not registered.
     t5 = "quick"
-    ss5 = ss if tier == "quick" else spell_seeds(t5)
+    ss5 = ss
     for i in range(0, len(ss5), 3):
         mem.append(("named", "named-%d" % i, REPEAT_SCHEMA, ss5[i:i + 3], t5))
     ims = import_seeds(t5)
